@@ -85,11 +85,22 @@ theorem validTaprootFlag_cases {f : Nat} (h : validTaprootFlag f = true) :
 def leafOf (script : Option Bytes) (leafVer : Nat) (codesep : Option Nat) : Option Leaf :=
   script.map fun s => { script := s, version := leafVer, codesepPos := codesep.getD 0xffffffff }
 
+/-- BIP341 digest — the FULL statement: every hash type `f` (any natural number, not only the seven BIP341 defines),
+    every index, lists `spks` / `values` of every length. Where BIP341 defines no digest (`bip341 … = none`: hash type
+    outside {0,1,2,3,0x81,0x82,0x83} — 0x80 included —, a list of spent scripts or amounts whose length is not the
+    number of inputs, index out of range, SINGLE without a matching output) the code refuses; everywhere else it
+    returns BIP341's digest. (Before `fixes/fix-taproot-hashtype.diff` this needed the hypotheses
+    `validTaprootFlag f` and `spks.length = t.vin.length`: audit item A4.) `leafVer < 256`: the leaf version is a
+    byte (`bytes([leaf_version])`). -/
 theorem taproot_eq_bip341 (sha : Bytes → Bytes) (t : Tx) (idx : Nat) (spks : List Bytes) (values : List Nat)
-    (f : Nat) (annex script : Option Bytes) (leafVer : Nat) (codesep : Option Nat)
-    (hf : validTaprootFlag f = true) (hs : spks.length = t.vin.length) (hlv : leafVer < 256) :
+    (f : Nat) (annex script : Option Bytes) (leafVer : Nat) (codesep : Option Nat) (hlv : leafVer < 256) :
     sighashTaproot sha t idx spks values f (if script.isSome then 1 else 0) annex script leafVer codesep
       = bip341 sha t idx spks values f annex (leafOf script leafVer codesep) := by
+  cases hf : validTaprootFlag f with
+  | false => rw [sighashTaproot_invalid_flag sha t idx spks values f _ annex script leafVer codesep hf]; simp [bip341, hf]
+  | true =>
+  by_cases hs : spks.length = t.vin.length
+  case neg => rw [sighashTaproot_spks_length sha t idx spks values f _ annex script leafVer codesep hs]; simp [bip341, hs]
   have e1 : hashPrevoutsPre t = t.vin.flatMap outpoint := rfl
   have e2 : hashSequencePre t = t.vin.flatMap fun i => leN 4 i.sequence := rfl
   have e3 : hashOutputsPre t = t.vout.flatMap encOut := rfl
@@ -124,7 +135,19 @@ theorem taproot_eq_bip341 (sha : Bytes → Bytes) (t : Tx) (idx : Nat) (spks : L
   · have hget : t.vin[idx]? = none := List.getElem?_eq_none hi
     simp [sighashTaproot, hi, bip341, hget]
 
+/-- the two refusals the full statement adds, spelled out: hash type 0x80 (ANYONECANPAY with base type DEFAULT) has no
+    BIP341 digest and is refused … -/
+theorem taproot_0x80_rejected (sha : Bytes → Bytes) (t : Tx) (idx : Nat) (spks : List Bytes) (values : List Nat)
+    (e : Nat) (a s : Option Bytes) (lv : Nat) (cs : Option Nat) (l : Option Leaf) :
+    sighashTaproot sha t idx spks values 0x80 e a s lv cs = none ∧ bip341 sha t idx spks values 0x80 a l = none :=
+  ⟨sighashTaproot_invalid_flag sha t idx spks values 0x80 e a s lv cs (by decide), by simp [bip341, validTaprootFlag]⟩
 
+/-- … and so is a list of spent scripts that does not have one entry per input -/
+theorem taproot_spks_length_rejected (sha : Bytes → Bytes) (t : Tx) (idx : Nat) (spks : List Bytes)
+    (values : List Nat) (f e : Nat) (a s : Option Bytes) (lv : Nat) (cs : Option Nat) (l : Option Leaf)
+    (h : spks.length ≠ t.vin.length) :
+    sighashTaproot sha t idx spks values f e a s lv cs = none ∧ bip341 sha t idx spks values f a l = none :=
+  ⟨sighashTaproot_spks_length sha t idx spks values f e a s lv cs h, by simp [bip341, h]⟩
 
 /-- a hash type outside {DEFAULT, ALL, NONE, SINGLE} (± ANYONECANPAY) is refused by all three algorithms -/
 theorem invalid_flag_rejected (sha : Bytes → Bytes) (t : Tx) (idx : Nat) (sc : Bytes) (v : Nat) (f : Nat)
@@ -155,5 +178,15 @@ example : validFlag 0x83 = true ∧ validTaprootFlag 0x83 = true ∧ 0 < C03.exL
 example : (legacy id C03.exLegacy 0 [0x51] 0x03).length = 66 := by decide
 example : (sighashLegacy id C03.exLegacy 0 [0x51] 0x03) = some (legacy id C03.exLegacy 0 [0x51] 0x03) :=
   legacy_eq_consensus id _ _ _ _ (by decide) (by decide)
+
+-- the full taproot statement is not vacuous on either side: a digest for 0x81 with one script per input, refusals for
+-- 0x80, for an empty script list, for a hash type above a byte
+example : (sighashTaproot id C03.exLegacy 0 [[0x51]] [7] 0x81 0 none none 0xC0 none).isSome = true := by decide
+example : sighashTaproot id C03.exLegacy 0 [[0x51]] [7] 0x81 0 none none 0xC0 none
+    = bip341 id C03.exLegacy 0 [[0x51]] [7] 0x81 none none :=
+  taproot_eq_bip341 id C03.exLegacy 0 [[0x51]] [7] 0x81 none none 0xC0 none (by decide)
+example : bip341 id C03.exLegacy 0 [[0x51]] [7] 0x80 none none = none
+    ∧ bip341 id C03.exLegacy 0 [] [7] 0x81 none none = none
+    ∧ bip341 id C03.exLegacy 0 [[0x51]] [7] 0x181 none none = none := by decide
 
 end Embit.Props.C01
